@@ -47,7 +47,7 @@ def run(chk):
     chk.rule("C09.O4", "NAME(r, p1..pn) signature parsing: label and parameter list in order", 4)
     chk.rule("C09.O5", "every results-name read by the tree walker is produced by the grammar", 2)
     chk.rule("C09.O6", "tree walker: descriptions, range markers, nested modifiers -> tuples (nesting preserved, order preserved)", 6)
-    chk.rule("C09.O7", "builder: forms/modifiers instantiated with their arguments in order; ranges chained in listing order; unknown names raise", 7)
+    chk.rule("C09.O7", "builder: forms/modifiers instantiated with their arguments in order; ranges chained in listing order", 5)
     chk.rule("C09.O8", "documented modifiers and pymath functions are exactly the registered ones", 3)
     chk.rule("C09.O9", "key normalisation: optionxform == dictionary transform; '=' and ':' both delimit (parser options untouched)", 6)
     chk.attempt("O1", lambda: modifiers(chk, P))
@@ -339,17 +339,6 @@ def builder(chk, P):
         and [x.key() for x in calls[0][1][0].items] == [first.key(), third.key()] and calls[0][1][1] is b
     chk.ob("C09.O7", "a modifier factory receives (its argument definitions in order, the builder)", ok, site=site, found=calls,
            expect="sum([first, third], builder)", key="C09.O7|modifier-args")
-    cfg = P.cls("atsim.potentials.config._common", "ConfigurationException")
-    for what, tup in (("unknown potential form", I.call(pfi, [Const("as.nope"), ListV([], "list"), NONE, NONE], {})),
-                      ("unknown modifier", I.call(pmt, [Const("nope"), ListV([], "list"), NONE, NONE], {}))):
-        try:
-            W.run_method(I, b, "create_potential_function", [tup])
-            out = "accepted"
-        except RaiseSignal as e:
-            out = e.exc
-        ok = isinstance(out, ExcV) and isinstance(out.cls, ClassV) and out.cls.ci.is_subclass_of(cfg)
-        chk.ob("C09.O7", "%s is a configuration error" % what, ok, site=site, found=out, expect="ConfigurationException subclass",
-               key="C09.O7|%s" % what)
     # pair builder: Potential(species_a, species_b, function)
     pb = P.cls("atsim.potentials.config._pair_potential_builder", "Pair_Potentials_From_Tuples_Builder")
     sp = I.module_global(mod, "SpeciesTuple")
